@@ -35,7 +35,9 @@ def is_call_to(t, names):
 
 def subterms(t):
     if isinstance(t, tuple):
-        if t and isinstance(t[0], tuple):  # a sequence of terms (call arguments)
+        if not t:
+            return
+        if isinstance(t[0], tuple):  # a sequence of terms (call arguments)
             for x in t:
                 for y in subterms(x):
                     yield y
